@@ -29,12 +29,15 @@ ASSUMPTIONS = ["VCS observed at the subprocess seam (mc/fakevcs.py); clean `git 
 
 ENGINES = {
     "v2": dict(vp="MAJOR.MINOR.PATCH", old="1.2.3", new="1.2.4", lower="1.2.2",
-               pats=["ver={version};", "pep={pep440_version};", "api=MAJOR.MINOR;"], occ=["ver=1.2.3;", "pep=1.2.3;", "api=1.2;"]),
+               pats=["ver={version};", "pep={pep440_version};", "api=MAJOR.MINOR;", "release ver={version}; done"],
+               occ=["ver=1.2.3;", "pep=1.2.3;", "api=1.2;", "release ver=1.2.3; done"]),
     "legacy": dict(vp="{semver}", old="1.2.3", new="1.2.4", lower="1.2.2",
-                   pats=["ver={version};", "sem={semver};", "api={MAJOR}.{MINOR};"], occ=["ver=1.2.3;", "sem=1.2.3;", "api=1.2;"]),
+                   pats=["ver={version};", "sem={semver};", "api={MAJOR}.{MINOR};", "release ver={version}; done"],
+                   occ=["ver=1.2.3;", "sem=1.2.3;", "api=1.2;", "release ver=1.2.3; done"]),
 }
 # pattern sets of a file (indices into pats): full / full+second / partial pattern that does not change with --patch / mixed
-PATSETS = {1: (0,), 2: (0, 1), 3: (2,), 4: (2, 0)}
+# (5: a pattern whose text CONTAINS another pattern of the same file, listed first so that both find their own occurrence)
+PATSETS = {1: (0,), 2: (0, 1), 3: (2,), 4: (2, 0), 5: (3, 0)}
 
 
 FILE_STYLE = [("\r\n", True), ("\n", True), ("\r", True), ("\r\n", False), ("\n", False)]
@@ -54,11 +57,13 @@ def explore(tier, seed):
     for engine in sorted(ENGINES):
         for fmt in ("bumpver.toml", "setup.cfg"):
             for n in range(1, nmax + 1):
-                for npat in itertools.product((1, 2, 3, 4), repeat=n):
+                for npat in itertools.product((1, 2, 3, 4, 5), repeat=n):
                     if n >= 2 and npat != tuple(sorted(npat)) and not (n == 2 and tier != "quick"):
                         continue  # pattern sets per file: only sorted distributions (file order is permuted anyway)
                     if n >= 3 and len(set(npat)) > 2:
                         continue
+                    if n >= 3 and 5 in npat and tier == "quick":
+                        continue  # (the nested-pattern set: one and two files in the quick tier)
                     if n >= 5 and len(set(npat)) > 1:
                         continue  # five files: the same pattern set in every file (all 120/720 orders x every fault)
                     for explicit in (False, True):
